@@ -572,6 +572,8 @@ func c02Batches(push bool) *Scenario {
 				c02Explore(r, []byte("["+a+"]"), push, false)
 				c02Explore(r, []byte(a), push, false)
 				c02Explore(r, []byte("["+a+","+a+","+reps[0]+"]"), push, false)
+				c02Explore(r, []byte("["+a+","+a+","+a+"]"), push, false)
+				c02Explore(r, []byte("["+a+","+reps[0]+","+a+","+a+","+a+"]"), push, false)
 			}
 			r.Sample(map[string]any{"record": "[" + reps[10] + "," + reps[3] + "]", "push": push})
 		},
